@@ -77,7 +77,11 @@ func HarnessC05Steps(n int) {
 			case 5:
 				kv = append(kv, s("timeout-minutes"), ref)
 			default:
-				kv = append(kv, s("working-directory"), ref)
+				if verifChoose("wdfirst", 2) == 1 {
+					kv = append([]*yaml.Node{s("working-directory"), ref}, kv...) // written before run:
+				} else {
+					kv = append(kv, s("working-directory"), ref)
+				}
 			}
 		}
 		if has[j] {
@@ -160,6 +164,9 @@ func HarnessC05Needs() {
 	var bn, cn []string
 	if bNeedsA {
 		bn = []string{"a"}
+	}
+	if verifChoose("unknownfirst", 2) == 1 {
+		cn = append(cn, "zz") // a job that does not exist, listed first: the entries after it still count
 	}
 	if cNeeds&1 != 0 {
 		cn = append(cn, "A") // needs ids are case-insensitive
